@@ -3,6 +3,7 @@ import bitprov
 import a4_header
 import a4_twin
 import io_words
+import size_branches
 import json, os
 from vlib.core import VERIF
 
@@ -23,6 +24,11 @@ def run(facts, tier):
     obs += o
     rules.append({"rule": "writer-twin", "instances": len([x for x in o if x["status"] != "info"]), "min": 20,
                   "text": "stream writer and byte writer of one type are twin programs modulo the write primitive (fields, widths, order, conditions, state flowing into the image)"})
+    sarmed = set(json.load(open(os.path.join(VERIF, "spec", "size_armed.json")))["armed"])
+    o = size_branches.obligations(facts, sarmed)
+    obs += o
+    rules.append({"rule": "size-branches", "instances": len([x for x in o if x["status"] != "info"]), "min": 9,
+                  "text": "the advertised size function branches only on state predicates the byte writer branches on"})
     exc = json.load(open(os.path.join(VERIF, "spec", "io_words_exceptions.json")))
     o = io_words.obligations(facts, {k: v for k, v in exc.items() if not k.startswith("_")})
     obs += o
